@@ -965,6 +965,7 @@ def gen_C13(rnd, n, tier):
             elif x < 0.6: val = ["FLAG_X%d" % i]
             elif x < 0.7 and i > 0: val = [rnd.choice(names[:i]), "+", "1"]
             elif x < 0.85 and i > 0: val = [rnd.choice(names[:i])]            # a pure alias of an earlier constant
+            elif x < 0.93 and i + 1 < len(names): val = [rnd.choice(names[i + 1:]), "+", "1"]   # mentions a name that is only defined LATER: stays as written
             else: val = ["BASE", "+", "0x1%d" % i]
             deflines.append("const %s = %s" % (nme, " ".join(val)))
             exp = []
